@@ -2,7 +2,7 @@
    value table; the harness reads the files itself, classifies every slot from its bytes and hands the
    dump to the extracted checker; the btree half uses the proved btree checker of C04). *)
 From Coq Require Import NArith List Bool Arith Permutation.
-From PDB Require Import Model.StorageCheck Proofs.StorageCheckProofs.
+From PDB Require Import Model.StorageCheck Proofs.StorageCheckProofs Model.TableAlloc Proofs.TableAllocProofs.
 Import ListNotations.
 Open Scope N_scope.
 
@@ -30,6 +30,43 @@ Theorem C14_no_slot_leaked :
   In i (t_free (check_table d)) \/ exists c, In c (t_chains (check_table d)) /\ In i c.
 Proof. exact every_slot_used. Qed.
 
+(* The mechanism: the allocator keeps a table partitioned. [TInv] is what the checker establishes
+   (C14_checked_table_satisfies_invariant); taking a slot from the free list, taking the slot at the
+   fill mark when the list is empty, and clearing the slot of a single-slot value each preserve it,
+   change no other slot, and hand out / take back exactly the slot in question. Hence removing data
+   returns its slots for reuse and a steady insert / remove workload does not move the fill mark. *)
+Theorem C14_checked_table_satisfies_invariant :
+  forall d, t_ok (check_table d) = true -> slots d <> [] \/ filled d = 1 -> TInv d.
+Proof. exact checked_is_tinv. Qed.
+
+Theorem C14_alloc_pops_free_list :
+  forall d nx, TInv d -> slot_at d (free_head d) = Some (RFree nx) ->
+  let '(d', i) := alloc1 d in
+  TInv d' /\ i = free_head d /\ slot_at d' i = Some RSize /\ filled d' = filled d /\
+  (forall k, k <> i -> slot_at d' k = slot_at d k).
+Proof. exact alloc1_pop_inv. Qed.
+
+Theorem C14_alloc_extends_only_when_list_empty :
+  forall d, TInv d -> free_head d = 0 ->
+  let '(d', i) := alloc1 d in
+  TInv d' /\ i = filled d /\ slot_at d' i = Some RSize /\ filled d' = filled d + 1 /\
+  (forall k, k <> i -> slot_at d' k = slot_at d k).
+Proof. exact alloc1_extend_inv. Qed.
+
+Theorem C14_free_pushes_on_free_list :
+  forall d i, TInv d -> slot_at d i = Some RSize -> memN i (targets d) = false ->
+  TInv (free1 d i) /\ filled (free1 d i) = filled d /\ free_head (free1 d i) = i /\
+  (forall k, k <> i -> slot_at (free1 d i) k = slot_at d k).
+Proof. exact free1_inv. Qed.
+
+(* insert then remove leaves the fill mark where it was, and the freed slot is the next one handed out *)
+Example C14_steady_state :
+  let d0 := {| filled := 1; free_head := 0; slots := [] |} in
+  let '(d1, a) := alloc1 d0 in let '(d2, b) := alloc1 d1 in
+  let d3 := free1 d2 a in let '(d4, c) := alloc1 d3 in
+  (a, b, c) = (1, 2, 1) /\ filled d4 = 3 /\ t_ok (check_table d4) = true /\ t_ok (check_table d3) = true.
+Proof. vm_compute. repeat split; reflexivity. Qed.
+
 (* Non-vacuity: a table with fill mark 8: free list 5 -> 2, a three-part chain 1 -> 6 -> 3, two complete
    values 4 and 7 - accepted; the same with slot 2 pointing back at 5 (a cycle), with slot 7 turned into
    an unreferenced continuation part, or with the free head pointing at a live value - rejected. *)
@@ -46,3 +83,7 @@ Proof. vm_compute. repeat split; reflexivity. Qed.
 Print Assumptions C14_accepted_table_is_partitioned.
 Print Assumptions C14_no_slot_twice.
 Print Assumptions C14_no_slot_leaked.
+Print Assumptions C14_checked_table_satisfies_invariant.
+Print Assumptions C14_alloc_pops_free_list.
+Print Assumptions C14_alloc_extends_only_when_list_empty.
+Print Assumptions C14_free_pushes_on_free_list.
